@@ -17,6 +17,7 @@ import (
 	"math/rand/v2"
 	"os"
 	"sort"
+	"time"
 )
 
 // SplitMix64 step; used to derive independent sub-seeds from one integer.
@@ -161,30 +162,30 @@ type Replay struct {
 	Tier    string `json:"tier"`
 	Step    int64  `json:"step"`
 	Mode    string `json:"mode,omitempty"`
-	Note       string          `json:"note,omitempty"`
+	Note    string `json:"note,omitempty"`
 }
 
 // Report is what one worker writes for the driver to merge.
 type Report struct {
-	Property    string           `json:"property"`
-	Seed        uint64           `json:"seed"`
-	Worker      int              `json:"worker"`
-	WorkerSeed  uint64           `json:"worker_seed"`
-	Evaluations int64            `json:"evaluations"` // executions of the code under test
-	Cases       int64            `json:"cases"`
-	Nontrivial  int64            `json:"nontrivial"`
-	Skipped     int64            `json:"skipped_outside_domain"`
-	Steps       map[string]int64 `json:"logical_steps"`
-	Faults      map[string]int64 `json:"faults_injected"`
-	Reach       map[string]int64 `json:"reach"`
-	Distinct    map[string]int64 `json:"distinct"` // per-measure distinct counts inside this worker
-	Samples     []any            `json:"samples"`
-	Replays     []Replay         `json:"replays"`
-	TraceDigest string           `json:"trace_digest"` // hash over all per-case trace hashes, in order
+	Property    string            `json:"property"`
+	Seed        uint64            `json:"seed"`
+	Worker      int               `json:"worker"`
+	WorkerSeed  uint64            `json:"worker_seed"`
+	Evaluations int64             `json:"evaluations"` // executions of the code under test
+	Cases       int64             `json:"cases"`
+	Nontrivial  int64             `json:"nontrivial"`
+	Skipped     int64             `json:"skipped_outside_domain"`
+	Steps       map[string]int64  `json:"logical_steps"`
+	Faults      map[string]int64  `json:"faults_injected"`
+	Reach       map[string]int64  `json:"reach"`
+	Distinct    map[string]int64  `json:"distinct"` // per-measure distinct counts inside this worker
+	Samples     []any             `json:"samples"`
+	Replays     []Replay          `json:"replays"`
+	TraceDigest string            `json:"trace_digest"` // hash over all per-case trace hashes, in order
 	HashFiles   map[string]string `json:"hash_files"`
-	WallS       float64          `json:"wall_s"`
-	Note        string           `json:"note,omitempty"`
-	HarnessErr  string           `json:"harness_error,omitempty"`
+	WallS       float64           `json:"wall_s"`
+	Note        string            `json:"note,omitempty"`
+	HarnessErr  string            `json:"harness_error,omitempty"`
 }
 
 func NewReport(prop string, seed uint64, worker int, wseed uint64) *Report {
@@ -258,10 +259,13 @@ func CountDistinctFiles(paths []string) (int64, error) {
 // the same signature. budget bounds the number of executions.
 func Minimise[C any](c C, candidates func(C) []C, stillFails func(C) bool, budget int) (C, int) {
 	used := 0
+	// a wall-clock bound as well: it only decides how small the reported case gets, never the
+	// verdict (the case found is a failing case at every point of the descent)
+	start := time.Now()
 	for {
 		progressed := false
 		for _, cand := range candidates(c) {
-			if used >= budget {
+			if used >= budget || time.Since(start) > 25*time.Second {
 				return c, used
 			}
 			used++
